@@ -32,6 +32,7 @@ def dispatch (e : Engines) (ws : List String) : Engines × String :=
       let (s, o) := Driver.Rid.step e.rid ws; ({ e with rid := s }, o)
     else if w == "conc.race" then (e, "one-handle")   -- C01_unique_handle / C01_one_winner: every interleaving
     else if w == "conc.probe" then (e, "stable")      -- C01_presence_monotone
+    else if w == "src.shortread" then (e, "same")     -- C03/C04/C16: a reader may return short reads; the member's bytes are what was packed (oracle only)
     else if w == "src.trunc" then (e, "err-or-refused") -- C03/C04: a truncated tar member is an error, never a prefix (oracle only)
     else if w == "src.embfix" then (e, "agree")       -- C04: the embed! macro's table against FileSystem over the same fixture (oracle only)
     else if w == "dir.cust" then (e, "agree")         -- C11: a custom DirLoadable and its Arc wrapper list alike (oracle against the tree)
